@@ -149,11 +149,12 @@ const (
 	CbEmit
 	CbFilterReg
 	CbStats
+	CbOtherWorld
 	NumCbActions
 )
 
 // CbNames names callback actions.
-var CbNames = []string{"nothing", "read", "query", "set", "writeptr", "gc", "structural", "unreg_self", "unreg_other", "reg_new", "emit", "filter_reg", "stats"}
+var CbNames = []string{"nothing", "read", "query", "set", "writeptr", "gc", "structural", "unreg_self", "unreg_other", "reg_new", "emit", "filter_reg", "stats", "other_world"}
 
 // Config is the per-run configuration (drawn from the seed, stored in replays).
 type Config struct {
